@@ -63,6 +63,19 @@ def export(rep, F, E, tag):
                 R.bad('writes-self%s' % tag, 'save_to_file writes the solver (%s)' % (ch,), f.loc())
         sn = one_call(f, 'sanitize_settings')
         R.check(f.dominates(sn.bb, ser.bb), 'sanitize-before-serialise' + tag, 'settings are not sanitised before serialisation', f.loc(sn.sp))
+        # "loaded data equal the originals": the clones may only be *re-valued* (un-scaling); no call that changes the stored pattern
+        # of P or A (dropzeros, to_triu, select_rows, canonicalize, set_entry ...) - an explicitly stored zero is part of the user's data
+        # (its slot is what update_P / update_A address after loading)
+        VALUE_ONLY = {'lrscale', 'lscale', 'rscale', 'scale', 'negate', 'hadamard', 'clone', 'deref', 'deref_mut', 'nnz', 'nrows', 'ncols', 'size', 'is_square', 'is_triu'}
+        for c in f.calls:
+            if not c.args:
+                continue
+            a0 = canon(f.sym_operand(c.args[0]))
+            if a0 in ('self.data.P', 'self.data.A') and c.callee.name not in VALUE_ONLY and 'serde' not in (c.callee.key or '') and c.callee.name not in ('to_string', 'serialize'):
+                if f.dominates(c.bb, ser.bb) and 'clone' in [x.callee.name for x in f.calls]:
+                    R.bad('pattern-preserved|%s|%s%s' % (a0[-1], c.callee.name, tag),
+                          'save_to_file applies %s to the exported %s: only value-rescaling operations are allowed on the clones, the stored sparsity pattern (including explicit zeros) '
+                          'is part of the problem that must round-trip' % (c.callee.name, a0[-1]), f.loc(c.sp))
 
     R.guard(body)
 
@@ -329,6 +342,9 @@ def matrix_validator(rep, F, tag):
 
 
 def run(ctx, rep, tier):
+    # the file stores the internal b: it equals the user's b except for entries above +bound (C09.R4 re-run: the cap is one-sided)
+    from . import c09 as _c09, c04 as _c04
+    _c09.cap_unconditional(_c04._Ren(rep, 'C09.R4', 'C19.R7'), ctx.facts('default'), '')
     for cfg in CONFIGS:
         F = ctx.facts(cfg)
         E = ctx.eff(cfg)
